@@ -1,3 +1,8 @@
 -- Root of the `StsModel` library: executable model, helper lemmas, property theorems.
 import StsModel.Model.Ranges
+import StsModel.Model.LogFmt
+import StsModel.Model.StageSem
+import StsModel.Lemmas.StageLogged
+import StsModel.Props.C04
 import StsModel.Props.C09
+import StsModel.Props.C18
